@@ -182,8 +182,9 @@ func decoderFor(fam base.TableFilterFamily) base.TableFilterDecoder {
 }
 
 // sizes returns the key counts of a tier: every n up to dense, then every stride-th n up to max, plus
-// 2^k-1, 2^k, 2^k+1 for every power of two up to max.
-func sizes(dense, stride, max int) []int {
+// 2^k-1, 2^k, 2^k+1 for every power of two up to maxPow (the writers collect hashes in blocks of 8192
+// (binary fuse) and 16384 (bloom) entries, so those boundaries are in both tiers).
+func sizes(dense, stride, max, maxPow int) []int {
 	set := map[int]bool{}
 	for n := 0; n <= dense; n++ {
 		set[n] = true
@@ -192,9 +193,9 @@ func sizes(dense, stride, max int) []int {
 		set[n] = true
 	}
 	set[max] = true
-	for p := 1; p <= max; p *= 2 {
+	for p := 1; p <= maxPow; p *= 2 {
 		for _, n := range []int{p - 1, p, p + 1} {
-			if n >= 0 && n <= max {
+			if n >= 0 && n <= maxKeys {
 				set[n] = true
 			}
 		}
@@ -478,9 +479,9 @@ func TestCheck(t *testing.T) {
 		fs := families()
 		var ns []int
 		if c.Thorough() {
-			ns = sizes(2000, 97, maxKeys)
+			ns = sizes(2000, 23, maxKeys, 16384)
 		} else {
-			ns = sizes(300, 37, 2000)
+			ns = sizes(300, 37, 2000, 16384)
 		}
 		// ---------- stage 1: filters ----------
 		// index = (size index, policy, family); sizes outermost so that the smallest counterexample is
@@ -521,7 +522,7 @@ func TestCheck(t *testing.T) {
 			}
 		})
 		scope := map[string]any{
-			"filter_stage": fmt.Sprintf("%d of %d cells = %d key counts (%d..%d) x %d policies x %d families; every added key queried (%d key queries on fresh filters)",
+			"filter_stage": fmt.Sprintf("%d of %d cells = %d key counts (min %d, max %d) x %d policies x %d families; every added key queried (%d key queries on fresh filters)",
 				done, total, len(ns), ns[0], ns[len(ns)-1], len(ps), len(fs), keysProbed),
 			"policies": policyNames(ps),
 			"families": familyNames(fs),
